@@ -16,10 +16,10 @@ class GenRun:
         self.awaits = awaits
         self.next_pt = 0
 
-    def script(self, targets, truthy=0.85, ncalls=(0, 0, 1, 1, 2), allow_false=True):
+    def script(self, targets, truthy=0.85, ncalls=(0, 0, 1, 1, 2), allow_false=True, sync_only=False):
         rng = self.rng
         acts = []
-        for _ in range(rng.choice(ncalls)):
+        for _ in range(0 if sync_only else rng.choice(ncalls)):
             if targets:
                 acts.append(["call", rng.choice(targets)])
             if self.is_async and rng.random() < self.awaits:
@@ -34,8 +34,6 @@ class GenRun:
     def program(self, nf=None, nc=None):
         rng = self.rng
         nf = nf if nf is not None else rng.choice([1, 2, 2, 3])
-        if self.is_async:
-            nc = 0
         nc = nc if nc is not None else rng.choice([0, 1, 1, 2])
         nmeth = [rng.choice([1, 2]) for _ in range(nc)]
         objs = []
@@ -63,7 +61,8 @@ class GenRun:
             fns.append({"pre": pre, "snaps": snaps, "post": post, "body": body})
         classes = []
         for c in range(nc):
-            invs = [self.script(everything) for _ in range(rng.choice([1, 1, 2]))]
+            # the conditions of invariants are plain functions: in a program of coroutine functions they call nothing
+            invs = [self.script(everything, sync_only=self.is_async) for _ in range(rng.choice([1, 1, 2]))]
             meths = []
             for m in range(nmeth[c]):
                 # method bodies of class c: ranked by the lowest-ranked instance of the class
@@ -75,9 +74,9 @@ class GenRun:
         # constructors may call methods of the instance under construction: expressed with the "self" pseudo-target
         for c in range(nc):
             acts = []
-            for _ in range(rng.choice([0, 1, 1])):
+            for _ in range(0 if self.is_async else rng.choice([0, 1, 1])):
                 acts.append(["call", ["selfmeth", rng.randrange(nmeth[c])]])
-            for _ in range(rng.choice([0, 0, 1])):
+            for _ in range(0 if self.is_async else rng.choice([0, 0, 1])):
                 if fn_targets:
                     acts.append(["call", rng.choice(fn_targets)])
             classes[c]["init"] = [acts, ["raise", exc_tag(rng)] if rng.random() < self.faults else ["ret", True]]
